@@ -10,6 +10,16 @@
 
 package mailbox
 
+import (
+	"io"
+	"math"
+	"time"
+)
+
+var _ = math.MaxUint16
+var _ io.Writer
+var _ = time.Second
+
 // ---- contract prelude ------------------------------------------------------
 
 func old[T any](x T) T              { return x }
@@ -29,8 +39,53 @@ func held(m any) bool   { return true }
 func rheld(m any) bool  { return true }
 func unheld(m any) bool { return true }
 
+// past: t is the zero time or a time that has been read from the clock
+func past(t time.Time) bool { return true }
+
+// has: key is present in the map (spec builtin; executable version)
+func has[K comparable, V any](m map[K]V, k K) bool { _, ok := m[k]; return ok }
+
+// ghost trace of the calling goroutine (spec builtins; the executable stubs only
+// make the file compile - clauses that use them are not replayable):
+//   nsent[T]()/nrecv[T](): number of sends / receives on channels with element type T (one log per element type)
+//   senton(i, ch)/recvon(i, ch): the i-th send / receive was on channel ch
+//   sentval[T](i)/recvval[T](i): the pointer value sent / received by it
+//   nsenton(ch)/nrecvon(ch): number of sends / receives on ch
+//   wirelen()/wirebyte(i): bytes handed to a function field declared `sink`
+func nsent[T any]() int             { return 0 }
+func nrecv[T any]() int             { return 0 }
+func senton(i int, ch any) bool     { return false }
+func recvon(i int, ch any) bool     { return false }
+func sentval[T any](i int) (t T)    { return }
+func recvval[T any](i int) (t T)    { return }
+func nsenton(ch any) int            { return 0 }
+func nrecvon(ch any) int            { return 0 }
+func wirelen() int                  { return 0 }
+func wirebyte(i int) uint8          { return 0 }
+func closed(ch any) bool            { return false }
+func oncedone(o any) bool           { return false }
+
+//   nevents(kind)/eventref[T](kind, i): ghost event log (kind "call": calls through a field declared `logged`)
+func nevents(kind string) int              { return 0 }
+func eventref[T any](kind string, i int) (t T) { return }
+
+// allocated(p): p points to an object that exists (was allocated earlier)
+func allocated(p any) bool { return p != nil }
+
+// within(sub, whole): sub is a window of whole; offsetin: where it starts
+func within(sub, whole []byte) bool { return true }
+func offsetin(sub, whole []byte) int { return 0 }
+
 // elems / entries: frame designators for modifies clauses
 func elems[T any](s []T) int               { return len(s) }
+func chanstate(ch any) int                 { return 0 }
+
+// ghost-log designators for modifies clauses: a function that appends to a ghost
+// log must say so (callers assume undeclared logs unchanged)
+func wire() int              { return 0 }
+func chanlog[T any]() int    { return 0 }
+func cryptolog() int         { return 0 }
+func events(kind string) int { return 0 }
 func entries[K comparable, V any](m map[K]V) int { return len(m) }
 func forall(lo, hi int, p func(i int) bool) bool {
 	for i := lo; i < hi; i++ {
@@ -40,6 +95,32 @@ func forall(lo, hi int, p func(i int) bool) bool {
 	}
 	return true
 }
+
+// ---- ghost log of the idealised cryptographic operations -------------------------
+// (spec builtins; the executable stubs only make the file compile)
+//   nseals()/nopens(): number of AEAD Seal / Open operations performed so far
+//   sealkeyis(i,k), sealnonceis(i,n), sealptis(i,p), sealadis(i,a), sealoutis(i,o):
+//       the i-th Seal used key k, the nonce built from counter n, plaintext p,
+//       associated data a and returned exactly the slice o
+//   openkeyis / opennonceis / openctis / openadis / openok: the same for Open
+//   aeadkeyed(c,k): the AEAD instance c is keyed with k
+//   hkdf32(secret,salt,j): bytes [32j, 32j+32) of the HKDF-SHA256 stream for (secret, salt, no info)
+func nseals() int                              { return 0 }
+func nopens() int                              { return 0 }
+func sealkeyis(i int, k [32]byte) bool         { return true }
+func sealnonceis(i int, n uint64) bool         { return true }
+func sealptis(i int, p []byte) bool            { return true }
+func sealadis(i int, a []byte) bool            { return true }
+func sealoutis(i int, o []byte) bool           { return true }
+func openkeyis(i int, k [32]byte) bool         { return true }
+func opennonceis(i int, n uint64) bool         { return true }
+func openctis(i int, c []byte) bool            { return true }
+func openadis(i int, a []byte) bool            { return true }
+func openok(i int) bool                        { return true }
+func aeadkeyed(c any, k [32]byte) bool         { return true }
+func hkdf32(secret, salt [32]byte, j int) (r [32]byte) { return }
+func hkdf0(salt [32]byte, j int) (r [32]byte)          { return }
+func sealpt2is(i int, b0, b1 uint8) bool               { return true }
 
 // ---- spec functions --------------------------------------------------------
 
@@ -61,6 +142,160 @@ func be32at1(b []byte) uint32 {
 }
 
 // ---- contracts -------------------------------------------------------------
+
+//@ import "io"
+//@ import "math"
+
+// ---- cipher state (C08) ---------------------------------------------------------
+
+// csinv: the cipher state is keyed and its nonce counter is below the rotation interval.
+func csinv(c *cipherState) bool {
+	return c != nil && c.nonce < keyRotationInterval && aeadkeyed(c.cipher, c.secretKey)
+}
+
+// csnext: the state after one more AEAD operation: the nonce counter advances
+// by one; when it reaches the rotation interval the salt and the key are
+// replaced by the next two HKDF blocks of (key, salt) and the counter restarts.
+func csnext(c *cipherState, nonce0 uint64, key0, salt0 [32]byte) bool {
+	if nonce0+1 == keyRotationInterval {
+		return c.nonce == 0 && c.salt == hkdf32(key0, salt0, 0) && c.secretKey == hkdf32(key0, salt0, 1)
+	}
+	return c.nonce == nonce0+1 && c.salt == salt0 && c.secretKey == key0
+}
+
+//@ func (c *cipherState) Encrypt(associatedData, cipherText, plainText []byte) (out []byte)
+//@   props C08 C02 C07
+//@   modifies cryptolog()
+//@   requires csinv(c)
+//@   modifies c.nonce, c.secretKey, c.salt, c.cipher
+//@   ensures csinv(c) && csnext(c, old(c.nonce), old(c.secretKey), old(c.salt))
+//@   ensures len(out) == len(cipherText) + len(plainText) + macSize
+//@   ensures nseals() == old(nseals())+1 && sealkeyis(nseals()-1, old(c.secretKey)) && sealnonceis(nseals()-1, old(c.nonce)) &&
+//@           sealptis(nseals()-1, plainText) && sealadis(nseals()-1, associatedData)
+//@   ensures implies(len(cipherText) == 0, sealoutis(nseals()-1, out))
+//@   ensures nopens() == old(nopens())
+
+//@ func (c *cipherState) Decrypt(associatedData, plainText, cipherText []byte) (out []byte, err error)
+//@   props C08 C02 C07
+//@   modifies cryptolog()
+//@   requires csinv(c)
+//@   modifies c.nonce, c.secretKey, c.salt, c.cipher
+//@   ensures csinv(c) && csnext(c, old(c.nonce), old(c.secretKey), old(c.salt))
+//@   ensures nopens() == old(nopens())+1 && openkeyis(nopens()-1, old(c.secretKey)) && opennonceis(nopens()-1, old(c.nonce)) &&
+//@           openctis(nopens()-1, cipherText) && openadis(nopens()-1, associatedData)
+//@   ensures (err == nil) == openok(nopens()-1)
+//@   ensures implies(err == nil, len(cipherText) >= macSize && len(out) == len(plainText) + len(cipherText) - macSize)
+//@   ensures implies(err != nil, isnil(out))
+//@   ensures implies(err == nil && isnil(plainText), fresh(out))
+//@   ensures nseals() == old(nseals())
+
+//@ func (c *cipherState) InitializeKey(key [32]byte)
+//@   props C08 C07
+//@   modifies cryptolog()
+//@   requires c != nil
+//@   modifies c.nonce, c.secretKey, c.cipher
+//@   ensures csinv(c) && c.nonce == 0 && c.secretKey == key && nseals() == old(nseals()) && nopens() == old(nopens())
+
+//@ func (c *cipherState) InitializeKeyWithSalt(salt, key [32]byte)
+//@   props C08 C07
+//@   modifies cryptolog()
+//@   requires c != nil
+//@   modifies c.nonce, c.secretKey, c.cipher, c.salt
+//@   ensures csinv(c) && c.nonce == 0 && c.secretKey == key && c.salt == salt && nseals() == old(nseals()) && nopens() == old(nopens())
+
+//@ func (c *cipherState) rotateKey()
+//@   props C08 C07
+//@   modifies cryptolog()
+//@   requires c != nil
+//@   modifies c.nonce, c.secretKey, c.salt, c.cipher
+//@   ensures csinv(c) && c.nonce == 0 && c.salt == hkdf32(old(c.secretKey), old(c.salt), 0) && c.secretKey == hkdf32(old(c.secretKey), old(c.salt), 1)
+//@   ensures nseals() == old(nseals()) && nopens() == old(nopens())
+
+// pending: a record has been buffered by WriteMessage and is not completely flushed.
+func pending(b *Machine) bool { return len(b.nextHeaderSend) > 0 || len(b.nextBodySend) > 0 }
+
+//@ func (b *Machine) WriteMessage(p []byte) (err error)
+//@   props C08 C02 C15 C16 C07
+//@   modifies cryptolog()
+//@   requires b != nil && csinv(&b.sendCipher)
+//@   modifies b.nextHeaderSend, b.nextBodySend, b.sendCipher.nonce, b.sendCipher.secretKey, b.sendCipher.salt, b.sendCipher.cipher
+//@   ensures csinv(&b.sendCipher)
+//@   ensures @C15,C16 implies(len(p) > math.MaxUint16, err == ErrMaxMessageLengthExceeded)
+//@   ensures @C16 implies(len(p) <= math.MaxUint16 && old(pending(b)), err == ErrMessageNotFlushed)
+//@   ensures @C15,C16 implies(err != nil, nseals() == old(nseals()) && b.sendCipher.nonce == old(b.sendCipher.nonce) &&
+//@           sameslice(b.nextHeaderSend, old(b.nextHeaderSend)) && sameslice(b.nextBodySend, old(b.nextBodySend)))
+//@   ensures implies(len(p) <= math.MaxUint16 && !old(pending(b)), err == nil)
+//@   ensures @C16,C15 implies(err == nil, len(b.nextHeaderSend) == encHeaderSize && len(b.nextBodySend) == len(p)+macSize)
+//@   ensures @C08,C02 implies(err == nil, nseals() == old(nseals())+2 &&
+//@           sealoutis(nseals()-2, b.nextHeaderSend) && sealpt2is(nseals()-2, uint8(len(p)>>8), uint8(len(p))) &&
+//@           sealoutis(nseals()-1, b.nextBodySend) && sealptis(nseals()-1, p) &&
+//@           sealadis(nseals()-2, nil) && sealadis(nseals()-1, nil))
+
+//@ func (b *Machine) ReadHeader(r io.Reader) (pktLen uint32, err error)
+//@   props C08 C02 C16 C07
+//@   modifies cryptolog()
+//@   requires b != nil && !isnil(r) && csinv(&b.recvCipher)
+//@   modifies b.nextCipherHeader, b.recvCipher.nonce, b.recvCipher.secretKey, b.recvCipher.salt, b.recvCipher.cipher
+//@   ensures csinv(&b.recvCipher) && nseals() == old(nseals())
+//@   ensures implies(err == nil, nopens() == old(nopens())+1 && openok(nopens()-1) && openkeyis(nopens()-1, old(b.recvCipher.secretKey)) &&
+//@           opennonceis(nopens()-1, old(b.recvCipher.nonce)) && openadis(nopens()-1, nil) && pktLen >= macSize && pktLen <= math.MaxUint16+macSize)
+//@   ensures implies(err == nil, csnext(&b.recvCipher, old(b.recvCipher.nonce), old(b.recvCipher.secretKey), old(b.recvCipher.salt)))
+
+//@ func (b *Machine) ReadBody(r io.Reader, buf []byte) (out []byte, err error)
+//@   props C08 C02 C16 C07
+//@   modifies cryptolog()
+//@   requires b != nil && !isnil(r) && csinv(&b.recvCipher)
+//@   modifies elems(buf), b.recvCipher.nonce, b.recvCipher.secretKey, b.recvCipher.salt, b.recvCipher.cipher
+//@   ensures csinv(&b.recvCipher) && nseals() == old(nseals())
+//@   ensures implies(err == nil, nopens() == old(nopens())+1 && openok(nopens()-1) && openkeyis(nopens()-1, old(b.recvCipher.secretKey)) &&
+//@           opennonceis(nopens()-1, old(b.recvCipher.nonce)) && openadis(nopens()-1, nil) && openctis(nopens()-1, buf) &&
+//@           len(buf) >= macSize && len(out) == len(buf)-macSize)
+//@   ensures implies(err == nil, csnext(&b.recvCipher, old(b.recvCipher.nonce), old(b.recvCipher.secretKey), old(b.recvCipher.salt)))
+//@   ensures implies(err != nil, isnil(out))
+//@   ensures implies(err == nil, fresh(out))
+
+//@ func (b *Machine) ReadMessage(r io.Reader) (out []byte, err error)
+//@   props C08 C02 C15 C16 C07
+//@   modifies cryptolog()
+//@   requires b != nil && !isnil(r) && csinv(&b.recvCipher)
+//@   modifies b.nextCipherHeader, b.recvCipher.nonce, b.recvCipher.secretKey, b.recvCipher.salt, b.recvCipher.cipher
+//@   ensures csinv(&b.recvCipher) && nseals() == old(nseals())
+//@   ensures @C02 implies(err == nil, nopens() == old(nopens())+2 && openok(nopens()-2) && openok(nopens()-1) &&
+//@           openkeyis(nopens()-2, old(b.recvCipher.secretKey)) && opennonceis(nopens()-2, old(b.recvCipher.nonce)))
+//@   ensures @C02 implies(err != nil, isnil(out))
+//@   ensures @C15 implies(err == nil, len(out) <= math.MaxUint16)
+//@   ensures fresh(out) || isnil(out)
+
+// ---- record framing (C16) -----------------------------------------------------
+
+// payloadLeft: number of plaintext-carrying bytes in a body remainder of r bytes
+// (the last macSize bytes of a body are the MAC).
+func payloadLeft(r int) int {
+	if r > macSize {
+		return r - macSize
+	}
+	return 0
+}
+
+// suffixOf(a, b): a is the tail of b (same backing array, same end).
+func suffixOf(a, b []byte) bool {
+	return within(a, b) && offsetin(a, b)+len(a) == len(b)
+}
+
+//@ func (b *Machine) Flush(w io.Writer) (nn int, err error)
+//@   props C16 C15 C07
+//@   modifies wire()
+//@   requires b != nil && !isnil(w)
+//@   modifies b.nextHeaderSend, b.nextBodySend
+//@   ensures suffixOf(b.nextHeaderSend, old(b.nextHeaderSend)) && suffixOf(b.nextBodySend, old(b.nextBodySend))
+//@   ensures @C16 implies(len(b.nextHeaderSend) > 0, len(b.nextBodySend) == old(len(b.nextBodySend)))
+//@   ensures @C16 wirelen() == old(wirelen()) + (old(len(b.nextHeaderSend)) - len(b.nextHeaderSend)) + (old(len(b.nextBodySend)) - len(b.nextBodySend))
+//@   ensures @C16 forall(0, old(len(b.nextHeaderSend)) - len(b.nextHeaderSend), func(k int) bool {
+//@           return wirebyte(old(wirelen())+k) == old(b.nextHeaderSend)[k] })
+//@   ensures @C16 forall(0, old(len(b.nextBodySend)) - len(b.nextBodySend), func(k int) bool {
+//@           return wirebyte(old(wirelen()) + (old(len(b.nextHeaderSend)) - len(b.nextHeaderSend)) + k) == old(b.nextBodySend)[k] })
+//@   ensures @C16 nn == payloadLeft(old(len(b.nextBodySend))) - payloadLeft(len(b.nextBodySend))
+//@   ensures @C16 implies(err == nil, len(b.nextHeaderSend) == 0 && len(b.nextBodySend) == 0)
 
 //@ func NewMsgData(version uint8, payload []byte) (m *MsgData)
 //@   props C19 C15
